@@ -1,8 +1,8 @@
 """C17 — each strictness option changes exactly the check it names, nothing else."""
 from props.common_prog import judge_prog
 
-THEOREM_MODULES = ["Hcl.Theorems.C17"]
-THEOREMS = {"Hcl.Theorems.C17": ["C17_eval_flag_independent"]}
+THEOREM_MODULES = ["Hcl.Theorems.C17", "Hcl.Tie.Ops"]
+THEOREMS = {"Hcl.Tie.Ops": ["Tie.Ops.strictnessConsts", "Tie.Ops.defaultFeatures", "Tie.Ops.binopApplyText"], "Hcl.Theorems.C17": ["C17_eval_flag_independent"]}
 
 RULE = ("S-FEATURES: the harness (and with it hclrs) is rebuilt per strictness feature set (quick: default, none, all, "
         "each of strict-wire-widths-binary / strict-boolean-ops alone; thorough: all 32 subsets); each build reports its "
